@@ -20,6 +20,49 @@ Fixpoint lookup (name : list N) (l : list seqalg) : option seqalg :=
   | a :: r => if str_eqb name (seqalg_name a) then Some a else lookup name r
   end.
 
+(* Heuristic compositions as trees, independent of String():  t ::= H | D | A | U(t,...,t) | U()
+   An algorithm token "T=<t>" is heuristic.NewAlgorithm(<t>) with U = heuristic.UseFirst. *)
+Fixpoint parse_heur (fuel : nat) (s : list N) : option (heur * list N) :=
+  match fuel with
+  | O => None
+  | S f =>
+    match s with
+    | 72 :: r => Some (Halving, r)
+    | 68 :: r => Some (DeltaLargest, r)
+    | 65 :: r => Some (Approximation, r)
+    | 85 :: 40 :: 41 :: r => Some (UseFirst [], r)
+    | 85 :: 40 :: r =>
+        match (fix items (g : nat) (s : list N) : option (list heur * list N) :=
+                 match g with
+                 | O => None
+                 | S g' =>
+                   match parse_heur f s with
+                   | Some (h, 44 :: r') =>
+                       match items g' r' with
+                       | Some (hs, r'') => Some (h :: hs, r'')
+                       | None => None
+                       end
+                   | Some (h, 41 :: r') => Some ([h], r')
+                   | _ => None
+                   end
+                 end) f r with
+        | Some (hs, r') => Some (UseFirst hs, r')
+        | None => None
+        end
+    | _ => None
+    end
+  end.
+
+Definition lookup_alg (a : list N) : option seqalg :=
+  match a with
+  | 84 :: 61 :: t =>                       (* "T=" *)
+      match parse_heur (S (length t)) t with
+      | Some (h, []) => Some (SAHeuristic [h])
+      | _ => None
+      end
+  | _ => lookup a (seqalgs ++ extra_algs)
+  end.
+
 (* ---- shist: a history of calls in one process.  Each call is independent (find_sequence_alg per
    call); the only state is the caller's own slices: "n:s:list" makes slot s a new slice, "c:alg:s"
    calls FindSequence on slot s (contfrac leaves it sorted), "st:s:i:d" is the caller adding d to its
@@ -65,7 +108,7 @@ Definition hstep (st : list (list Z) * list (list N)) (fields : list (list N))
         | _, _ => None
         end
       else if str_eqb k $"c" then
-        match lookup a (seqalgs ++ extra_algs), parse_nat b with
+        match lookup_alg a, parse_nat b with
         | Some alg, Some s =>
             let ts := nth s slots [] in
             Some (set_nth [] s (targets_after alg ts) slots, call_result alg ts :: results)
@@ -112,10 +155,13 @@ Definition run_history (script : list N) : list N :=
 
 Definition run (line : list N) : list N :=
   match split sp line with
-  | [f; a] => if str_eqb f $"shist" then run_history a else r_badcase
+  | [f; a] => if str_eqb f $"shist" then run_history a
+              else if str_eqb f $"hname" then
+                match lookup_alg a with Some alg => r_ok (seqalg_name alg) | None => r_badcase end
+              else r_badcase
   | [f; a; b] =>
       if str_eqb f $"findsequence" then
-        match lookup a (seqalgs ++ extra_algs), pl b with
+        match lookup_alg a, pl b with
         | Some alg, Some ts =>
             match find_sequence_alg alg ts with
             | Ok c => r_ok (prl c ++ [sp] ++ prl (targets_after alg ts))
